@@ -498,8 +498,6 @@ def gen_fault_files(tier, rng):
                 files.append((s, comp, kinds + ([] if comp else hdr), 2))
         files.append((repaired[0], False, kinds + hdr, 2))
         files.append((repaired[1], True, kinds, 2))
-        files.append((repaired[3], False, hdr, 1))
-        files.append((big[0], True, kinds, 12))
         files.append((big[2], True, kinds, 12))
         files.append((big[1], False, hdr, 1))
         files.append((big[0], False, hdr, 1))
